@@ -221,12 +221,14 @@ theorem C20_released_on_exit_every_liveness (pw : Owner.Pid → List Owner.Wid) 
   intro c hidle hex
   exact C20_released_on_exit pw p t c0 c h0 hsole (Owner.Reach_runSched sched c0 .refl) hidle hex
 
-/-- No step of `acquire_by`, `release`, `is_available`, `is_locked` depends on the oracle: only the
-evaluation of `has_capacity and is_alive` inside `next_idle_worker` does. -/
+/-- No step of `acquire_by`, `release`, `is_available`, `is_locked`, `call` depends on the oracle: only
+the two steps that return the values of `has_capacity` and `is_alive` inside `next_idle_worker` /
+`idle_workers` do (`cExit`, `iExit` — the refinement of the former single point `uRd`; the lock
+operations of these two methods do not read it either). -/
 theorem C20_release_ignores_liveness (u u' : Owner.Wid → Bool) (W : Owner.Wid → Owner.Worker)
-    (t : Owner.Tid) (cl : Owner.Call) (h : cl.pc ≠ .uRd) :
+    (t : Owner.Tid) (cl : Owner.Call) (h : cl.pc ≠ .cExit) (h' : cl.pc ≠ .iExit) :
     Owner.mstep u W t cl = Owner.mstep u' W t cl :=
-  Owner.mstep_oracle_irrelevant u u' W t cl h
+  Owner.mstep_oracle_irrelevant u u' W t cl h h'
 
 /-- The marker used by `C20_released_on_exit` is set exactly when the `finally: release_all()` has
 released its last worker: the step that leaves the last `release` of a finaliser of `p` makes the
